@@ -116,10 +116,10 @@ Definition enc_obj_arr (o : obj) : list Z := enc32 swp (ocount o) ++ enc_objects
 Definition wf_obj (o : obj) : Prop :=
   ocount o < 2147483648 /\
   if is_arr (oty o) then
-    (forall e, In e (oelems o) -> zlen e < 2147483648) /\ packed_byte_size (oelems o) < 2147483648
+    (forall e, In e (oelems o) -> zlen e < 2147483647) /\ packed_byte_size (oelems o) < 2147483648
   else 0 < usize (oty o) /\ (forall e, In e (oelems o) -> zlen e = usize (oty o)).
 
-Lemma enc_elem_nonempty packed e : zlen e < 2147483648 -> enc_elem packed e <> [].
+Lemma enc_elem_nonempty packed e : zlen e < 2147483647 -> enc_elem packed e <> [].
 Proof.
   intros H. unfold enc_elem. destruct packed.
   - pose proof (zlen_enc7 (zlen e)) as L. pose proof (len7_bounds (zlen e)). pose proof (zlen_nonneg e).
@@ -171,12 +171,13 @@ Qed.
 
 (* ---- readers ---- *)
 Lemma rspec_elem ty packed e :
-  zlen e < 2147483648 -> rspec (read_elem swp cap0 ty packed) (enc_elem packed e) e.
+  zlen e < 2147483647 -> rspec (read_elem swp cap0 ty packed) (enc_elem packed e) e.
 Proof.
   intros H. pose proof (zlen_nonneg e) as N. unfold read_elem, enc_elem.
   eapply rspec_bind.
   - destruct packed; [apply rspec_7bit; unfold len_range; lia|apply rspec_int32; unfold i32_range; lia].
-  - destruct (zlen e <? 0) eqn:C; [lia|].
+  - destruct (zlen e <? 0) eqn:C; [lia|]. unfold INT_MAX.
+    destruct ((ty =? SBDF_STRINGTYPEID) && (zlen e =? 2147483647)) eqn:C1; [lia|].
     eapply rspec_ext; [apply app_nil_l|]. eapply rspec_bind; [unfold ralloc, alloc_ok; apply rspec_ret|].
     apply rspec_fread.
 Qed.
@@ -227,7 +228,7 @@ Qed.
 
 (* ---- skipping ends where reading ends (C07), for arrays ---- *)
 Lemma zlen_concat_elems_packed l :
-  (forall e, In e l -> zlen e < 2147483648) ->
+  (forall e, In e l -> zlen e < 2147483647) ->
   zlen (concat (map (enc_elem true) l)) = packed_byte_size l.
 Proof.
   intros H. unfold packed_byte_size.
@@ -250,14 +251,14 @@ Proof.
     { rewrite <- zlen_concat_elems_packed by exact We. apply zlen_nonneg. }
     destruct (rspec_int32 swp (packed_byte_size (oelems o))) as [E2 _]; [unfold i32_range; lia|]. rewrite E2.
     destruct (packed_byte_size (oelems o) <? 0) eqn:C1; [lia|].
-    unfold fseek_cur. rewrite C1. rewrite <- (zlen_concat_elems_packed _ We). now rewrite zdrop_app_exact.
+    unfold fseek_cur. rewrite C1. rewrite <- (zlen_concat_elems_packed _ We). now rewrite drop_z_app.
   - destruct W as [Hsz We].
     destruct (usize (oty o) <? 0) eqn:C1; [lia|]. destruct (usize (oty o) =? 0) eqn:C2; [lia|].
     unfold fseek_cur. destruct (zlen (oelems o) * usize (oty o) <? 0) eqn:C3; [lia|].
     assert (L : zlen (concat (map (swapb swp) (oelems o))) = zlen (oelems o) * usize (oty o)).
     { rewrite (zlen_concat_const (usize (oty o))), zlen_map; [lia|].
       intros e He. apply in_map_iff in He. destruct He as (e' & <- & He'). rewrite zlen_swapb. now apply We. }
-    rewrite <- L. now rewrite zdrop_app_exact.
+    rewrite <- L. now rewrite drop_z_app.
 Qed.
 
 End ObjFacts.
